@@ -101,6 +101,29 @@ class Elementwise:
         return "Elementwise({})".format(", ".join(repr(item) for item in self.items))
 
 
+class Loose:
+    """A value whose comparisons answer with 1, 0 or None instead of True / False (C-style and three-valued value classes do)."""
+
+    def __init__(self, v):
+        self.v = v
+
+    def __lt__(self, other):
+        return 1 if self.v < getattr(other, "v", other) else 0
+
+    def __gt__(self, other):
+        return 1 if self.v > getattr(other, "v", other) else None
+
+    def __le__(self, other):
+        return "yes" if self.v <= getattr(other, "v", other) else ""
+
+    def __ge__(self, other):
+        return [1] if self.v >= getattr(other, "v", other) else []
+
+    def __repr__(self):
+        return "Loose({!r})".format(self.v)
+
+
+G_LOOSE = Loose(3)
 found = None  # (a module global which some conditions re-bind with an assignment expression)
 y = -77  # (a leftover of a module-level loop: a global named like a loop variable of the generated comprehensions)
 G_STRICT = Strict(3)
@@ -376,7 +399,7 @@ class Gen:
         if d >= self.max_depth:
             return "{} {} {}".format(self.int_leaf(), rng.choice(["<", "<=", ">", ">=", "==", "!="]), self.int_leaf())
         opts = ["cmp", "cmp", "chain", "and", "or", "not", "in_dict", "in_list", "all", "any", "strcmp", "isinst", "truth", "container_eq",
-                "all_value", "builtin_const", "walrus_over_global"]
+                "all_value", "builtin_const", "walrus_over_global", "loose_chain"]
         if self.env.with_none:
             opts += ["none_guard", "is_none"]
         if rng.random() < self.guarded_bias:
@@ -394,6 +417,16 @@ class Gen:
             return rng.choice(["({i} is not NotImplemented and {b})", "({xs} is not Ellipsis and {b})", "((__debug__ or not __debug__) and {b})",
                                "({i} != NotImplemented and {b})", "({xs} is Ellipsis or {b})"]).format(
                                    i=self.int_expr(d + 1), xs=self.list_expr(d + 1), b=self.bool_expr(d + 1))
+        if k == "loose_chain":
+            # a chain stops at the first comparison whose outcome is falsy - 0, None, "" or [] just as well as False - and that
+            # outcome is the value of the chain
+            t = rng.choice(["{i} {o1} G_LOOSE {o2} {j}", "bool({i} {o1} G_LOOSE {o2} {j})", "({i} {o1} G_LOOSE {o2} {j}) or {b}",
+                            "not ({i} {o1} G_LOOSE {o2} {j})", "ident({i} {o1} G_LOOSE {o2} {j}) and {b}", "[{i} {o1} G_LOOSE {o2} {j}][0]",
+                            "({i} {o1} G_LOOSE {o2} {j} {o1} {k}) or {b}"])
+            if "bool(" in t and not self.env.can_use("bool"):
+                t = "{i} {o1} G_LOOSE {o2} {j}"
+            return t.format(i=self.int_expr(d + 1), j=self.int_expr(d + 1), k=self.int_leaf(), o1=rng.choice(["<", "<=", ">", ">="]),
+                            o2=rng.choice(["<", "<=", ">", ">="]), b=self.bool_expr(d + 2))
         if k == "chain":
             ops = [rng.choice(["<", "<=", ">", ">=", "==", "!="]) for _ in range(rng.randint(2, 3))]
             parts = [self.int_expr(d + 1)]
